@@ -10,16 +10,6 @@ use crate::rng::Rng;
 use crate::tok::*;
 use serde_json::{json, Value};
 
-fn other_key_same_family(k: KeyId) -> KeyId {
-    match k {
-        KeyId::IssuerEc => KeyId::HolderEc,
-        KeyId::IssuerEd => KeyId::HolderEd,
-        KeyId::Hmac1 => KeyId::Hmac2,
-        KeyId::HolderEc => KeyId::IssuerEc,
-        KeyId::HolderEd => KeyId::IssuerEd,
-        KeyId::Hmac2 => KeyId::Hmac1,
-    }
-}
 fn key_other_family(k: KeyId) -> KeyId {
     match k.fam() {
         Fam::Ec => KeyId::IssuerEd,
@@ -134,12 +124,27 @@ pub fn tamperings(r: &mut Rng, h: &Honest, other: Option<&Honest>, positions: us
         }
         // HS256 keyed with the verifier's public key material (algorithm confusion)
         {
-            let hdr = json!({"alg": "HS256"});
-            let msg = format!("{}.{}", b64_json(&hdr), parts[1]);
-            let secret: &[u8] = match f.issue.key { KeyId::IssuerEd => ISSUER_ED_PUB.as_bytes(), _ => ISSUER_EC_PUB.as_bytes() };
-            let sig = jsonwebtoken::crypto::sign(msg.as_bytes(), &jsonwebtoken::EncodingKey::from_secret(secret), jsonwebtoken::Algorithm::HS256).unwrap();
-            if f.issue.key.fam() != Fam::Hmac {
-                out.push(mk("alg-confusion-hs256-with-public-key", h, with_jwt(h, format!("{}.{}", msg, sig)), honest_resolver.clone(), kb));
+            // every byte form of the public key an attacker has, each HMAC family member, original and forged payload
+            for (form, secret) in public_key_materials(f.issue.key) {
+                for (an, alg) in [("HS256", jsonwebtoken::Algorithm::HS256), ("HS384", jsonwebtoken::Algorithm::HS384), ("HS512", jsonwebtoken::Algorithm::HS512)] {
+                    if an != "HS256" && !all_positions && r.chance(2, 3) {
+                        continue;
+                    }
+                    let hdr = json!({"alg": an});
+                    let mut pl = parts[1].to_string();
+                    if r.chance(1, 2) {
+                        if let Some(mut p) = h.pres.payload() {
+                            if let Some(m) = p.as_object_mut() {
+                                m.insert("role".into(), json!("admin"));
+                            }
+                            pl = b64_json(&p);
+                        }
+                    }
+                    let msg = format!("{}.{}", b64_json(&hdr), pl);
+                    if let Ok(sig) = jsonwebtoken::crypto::sign(msg.as_bytes(), &jsonwebtoken::EncodingKey::from_secret(&secret), alg) {
+                        out.push(mk(&format!("alg-confusion-{}-with-public-key-{}", an, form), h, with_jwt(h, format!("{}.{}", msg, sig)), honest_resolver.clone(), kb));
+                    }
+                }
             }
         }
         // header of another family, properly signed by a key of that family, resolver still returns the issuer's key
@@ -166,6 +171,18 @@ pub fn tamperings(r: &mut Rng, h: &Honest, other: Option<&Honest>, positions: us
             let mut c = mk("control-resolver-keyed-by-iss", h, h.pres_text.clone(), res2, kb);
             c.expect = Expect::Accept;
             out.push(c);
+            // the resolver is keyed by the EXACT iss of the token: here the token's own iss maps to a wrong key while every
+            // near spelling of it (trailing slash, blanks, case) and the default map to the right one — any normalisation of
+            // iss before the lookup would accept
+            let iss = h.pres.payload().and_then(|p| p.get("iss").and_then(Value::as_str).map(String::from)).unwrap_or_default();
+            let mut near: Vec<String> = vec![format!("{}/", iss), iss.trim_end_matches('/').to_string(), iss.trim().to_string(), format!("{} ", iss), format!(" {}", iss),
+                                             iss.to_lowercase(), iss.to_uppercase(), iss.replace("https://", "http://"), iss.trim_end_matches('/').to_string() + "//"];
+            near.retain(|x| *x != iss);
+            near.sort();
+            near.dedup();
+            let mut by: Vec<(String, KeyId)> = vec![(iss.clone(), other_key_same_family(f.issue.key))];
+            by.extend(near.into_iter().map(|x| (x, f.issue.key)));
+            out.push(mk("resolver-exact-iss-maps-to-other-key-near-spellings-to-the-right-one", h, h.pres_text.clone(), Resolver { default: f.issue.key, by_iss: by }, kb));
         }
         // parts of two tokens signed by the same key
         if let Some(o) = other {
